@@ -13,6 +13,7 @@ import (
 	"fmt"
 	"strings"
 
+	"github.com/cuteLittleDevil/go-jt808/shared/consts"
 	"verif/harness/internal/fw"
 )
 
@@ -34,6 +35,17 @@ func codecRunOne(e *codecEntry, c codecCtx, buf []byte, hist [][]byte) codecRun 
 	recv := e.mk(c)
 	for _, h := range hist {
 		hb := fw.Exact(h)
+		// a history body whose first byte is the marker 0xA5 followed by a version byte was received under ANOTHER header
+		// version than the body under test (one receiver per connection, terminals of mixed versions behind a gateway)
+		if pv, ok := recv.(interface {
+			parseVer(v consts.ProtocolVersionType, body []byte) string
+		}); ok && len(h) >= 2 && h[0] == 0xA5 && (h[1] == 1 || h[1] == 2 || h[1] == 3) {
+			ver, rest := consts.ProtocolVersionType(h[1]), fw.Exact(h[2:])
+			if g := codecGuard(func() { pv.parseVer(ver, rest) }); g.timeout {
+				return codecRun{cls: "timeout", what: "while parsing a history body"}
+			}
+			continue
+		}
 		if g := codecGuard(func() { recv.parse(hb) }); g.timeout {
 			return codecRun{cls: "timeout", what: "while parsing a history body"}
 		}
@@ -277,6 +289,23 @@ func (g *codecTotGen) mutate(raw []byte, other []byte, full, deep bool) {
 	// the valid body itself: fresh, and twice on a reused receiver
 	g.out(g.final(raw), 0)
 	g.out(g.final(raw), 100)
+	// ... and on a receiver that has parsed a body under each of the OTHER header versions before (a decoder that
+	// remembers the version of an earlier message reads this one with the wrong layout)
+	if len(g.e.ctxs) > 1 && g.ctx.ver != 0 {
+		for _, v := range []consts.ProtocolVersionType{consts.JT808Protocol2011, consts.JT808Protocol2013, consts.JT808Protocol2019} {
+			if v == g.ctx.ver {
+				continue
+			}
+			octx := g.ctx
+			octx.ver = v
+			ob := codecValidBody(g.e, g.r, octx)
+			if len(ob) == 0 {
+				continue
+			}
+			hb := append([]byte{0xA5, byte(v)}, g.final(ob)...)
+			g.emit(fw.Case{Op: "tot", Args: []string{g.e.name, g.ctx.s, fw.Hex(g.final(raw)), fw.Hex(hb)}})
+		}
+	}
 	if full {
 		g.out(g.final(raw), 100)
 	}
